@@ -13,6 +13,7 @@ def handle (toks : List String) : Option String :=
   match toks with
   | "c02.channels" :: _ => some "judge"
   | "c02.tamper" :: _ => some "judge"
+  | "c02.shardtraffic" :: _ => some "judge"
   | _ => none
 
 def oracle (toks : List String) (impl : String) : Option String :=
@@ -49,6 +50,17 @@ def oracle (toks : List String) (impl : String) : Option String :=
           | some w, _ => some s!"fails {w}"
           | _, some w => some s!"fails keys-after-rows: {w}"
           | none, none => some "holds"
+  | "c02.shardtraffic" :: _ =>
+    -- traffic between the shards of ONE helper: outside the single-corrupt-helper threat model, only classified.
+    -- Every gate must belong to a step of the execution order or be one of the resharding steps.
+    if impl.startsWith "abort" || impl.startsWith "panic" || impl == "timeout" then
+      some "fails honest malicious-mode query did not complete"
+    else if impl == "-" then some "holds"
+    else
+      let gates := (impl.splitOn ",").map fun x => ((x.splitOn ":").headD "").splitOn "/"
+      match gates.find? (fun g => (phaseOf g).isNone && !(["reshard_by_prf", "reshard_by_tag"].contains (g.headD ""))) with
+      | some g => some s!"fails unclassified shard-to-shard channel {"/".intercalate g}"
+      | none => some "holds"
   | "c02.tamper" :: _ =>
     if impl.startsWith "abort-or-same" || impl == "untouched" then some "holds"
     else if impl.startsWith "changed" then some "fails tampered run was accepted with a different histogram"
